@@ -6,4 +6,5 @@ INVARIANT Result
 INVARIANT Unchanged
 INVARIANT ErrClass
 INVARIANT Default
+INVARIANT Again
 CHECK_DEADLOCK FALSE
